@@ -101,6 +101,19 @@ func runSoak(t *testing.T, fx *fixtures, c verifCase, w *bufio.Writer) {
 	}
 }
 
+// soakStallWriter is a client that stopped reading: every Write blocks until released.
+type soakStallWriter struct {
+	hdr     http.Header
+	release <-chan struct{}
+}
+
+func (s *soakStallWriter) Header() http.Header { return s.hdr }
+func (s *soakStallWriter) WriteHeader(int)     {}
+func (s *soakStallWriter) Write(p []byte) (int, error) {
+	<-s.release
+	return len(p), nil
+}
+
 func soakOnce(fx *fixtures, seed uint64, dur time.Duration, ncmd, nreq int) string {
 	dir, err := os.MkdirTemp("", "verif-soak-")
 	if err != nil {
@@ -340,6 +353,29 @@ func soakOnce(fx *fixtures, seed uint64, dur time.Duration, ncmd, nreq int) stri
 		}(i)
 	}
 
+	// clients that have stopped reading: their handler blocks in Write until the very end of the soak. Commands
+	// must not wait for them beyond their drain timeout (the cancel only asks; C17).
+	releaseStalled := make(chan struct{})
+	go func() {
+		rng := mrand.New(mrand.NewPCG(seed, 4000))
+		for k := 0; k < 3; k++ {
+			select {
+			case <-stop:
+				return
+			case <-time.After(time.Duration(100+rng.IntN(300)) * time.Millisecond):
+			}
+			host := pick(rng, hosts)
+			if host == "" {
+				host = "other.test"
+			}
+			req := httptest.NewRequest("GET", "http://"+host+"/", nil)
+			go func() {
+				defer func() { recover() }()
+				handler.ServeHTTP(&soakStallWriter{hdr: http.Header{}, release: releaseStalled}, req)
+			}()
+		}
+	}()
+
 	// probe flips
 	wg.Add(1)
 	go func() {
@@ -401,6 +437,7 @@ WATCH:
 			}
 		}
 	}
+	close(releaseStalled)
 	if hung != "" {
 		buf := make([]byte, 1<<20)
 		n := runtime.Stack(buf, true)
